@@ -2,9 +2,12 @@
    In the specification memoized() is the identity.  The machine with memo tables (flag memo_on,
    the configuration that is tied to the code by the correspondence run) is compared with that
    specification on every generated case; the theorems below are about the machine without tables
-   and about the table-free reading.  A general proof that the table-using machine agrees with the
-   table-free one (for injective keys and no left recursion) is not done; see DESIGN.md section 6. *)
-From Chum Require Import Corollaries.
+   and about the table-free reading, plus the memoization step itself (Proofs/MemoP.v): for any interpreter of the
+   sub-parsers that refines a specification with the register-equivariance property (which [sem] has: Proofs/Shelter.v),
+   a first visit is transparent and caches a valid entry, and a visit that hits a valid entry returns what a re-run
+   would.  Not proved: that every entry stays valid through the whole run (the global induction over the table-using
+   machine); validity across contexts is false of the code (finding F18).  See DESIGN.md sections 6 and 10. *)
+From Chum Require Import Corollaries MemoP.
 
 (* memoized() does not change the specification: acceptance, output, extent, emissions, pending error *)
 Theorem C11_memoized_is_identity_in_the_specification :
@@ -18,6 +21,39 @@ Theorem C11_table_free_machine_is_specified :
     go no_quirks K toks spn n m (Memo id x) ctx s = (Ok v, s') -> inv toks s ->
     exists v' ems a', sem K toks spn n (Memo id x) ctx (cur s) (alt s) = Some (Some (v', cur s', ems), a') /\ v = bindv m v'.
 Proof. intros K toks spn n m id x. exact (machine_ok_is_peg K toks spn n m (Memo id x)). Qed.
+
+(* Register equivariance of the specification: for grammars without recover_with / extension parsers, running from the
+   register (join a r) gives the same outcome and the register (join a r').  With r = None: running a parser on an empty
+   register and merging the result back -- what memoized() does around its parser -- is running it on the register. *)
+Theorem C11_running_sheltered_and_merging_back_is_running_directly :
+  forall K toks spn n g ctx p a o new, norec g = true -> envok ctx -> wfr a ->
+    sem K toks spn n g ctx p None = Some (o, new) ->
+    sem K toks spn n g ctx p a = Some (o, Sem.join K a new).
+Proof. exact shelter_eq. Qed.
+
+(* the memoization step, first visit: transparent, and a failure is cached as a valid entry *)
+Theorem C11_first_visit_is_transparent_and_caches_a_valid_entry :
+  forall K toks spn n srun,
+    R toks (go Q_on K toks spn n) srun -> Lift K srun ->
+    forall m id x ctx s r s1,
+      norec x = true -> envok ctx -> wfr (alt s) -> inv toks s ->
+      memo_get (memo s) (cur s) id = None ->
+      go Q_on K toks spn (S n) m (Memo id x) ctx s = (r, s1) ->
+      post toks m s r s1 (srun x ctx (cur s) (alt s)) /\
+      (r = Err -> exists new, memo_get (memo s1) (cur s) id = Some (Some new) /\ entry_valid srun x ctx (cur s) new).
+Proof. exact memo_miss_transparent. Qed.
+
+(* the memoization step, later visit: a valid cached failure is exactly what re-running the parser would give *)
+Theorem C11_valid_entry_replays_what_a_rerun_gives :
+  forall K toks spn n srun,
+    Lift K srun ->
+    forall m id x ctx s r s1 new,
+      norec x = true -> envok ctx -> wfr (alt s) ->
+      memo_get (memo s) (cur s) id = Some (Some (Some new)) ->
+      entry_valid srun x ctx (cur s) (Some new) ->
+      go Q_on K toks spn (S n) m (Memo id x) ctx s = (r, s1) ->
+      r = Err /\ err_post s s1 (srun x ctx (cur s) (alt s)).
+Proof. exact memo_hit_transparent. Qed.
 
 (* with tables: a left-recursive grammar whose recursive step is memoized terminates (fuel 40 suffices
    for these inputs) where the table-free reading diverges; and on a grammar without left recursion
@@ -41,3 +77,6 @@ Proof. vm_compute. discriminate. Qed.
 
 Print Assumptions C11_memoized_is_identity_in_the_specification.
 Print Assumptions C11_table_free_machine_is_specified.
+Print Assumptions C11_running_sheltered_and_merging_back_is_running_directly.
+Print Assumptions C11_first_visit_is_transparent_and_caches_a_valid_entry.
+Print Assumptions C11_valid_entry_replays_what_a_rerun_gives.
